@@ -8,6 +8,7 @@ import (
 )
 
 func TestMain(m *testing.M) {
+	vkit.StartWatchdog()
 	code := m.Run()
 	vkit.DumpAll()
 	os.Exit(code)
